@@ -1,6 +1,7 @@
 package main
 
 import (
+	"encoding/json"
 	"flag"
 	"fmt"
 	"golang.org/x/tools/go/ssa"
@@ -203,6 +204,17 @@ func main() {
 			os.Exit(2)
 		}
 		os.Stdout.Write(b)
+	case "dump-names":
+		// the tree's structs (fields in order, with types) and functions (signatures) under their
+		// own names: the table names.go resolves renamed unexported identifiers against
+		noAliases = true
+		P, err := Load(*repo, "", "", nil)
+		if err != nil {
+			fmt.Fprintln(os.Stderr, err)
+			os.Exit(2)
+		}
+		b, _ := json.MarshalIndent(collectNames(P), "", " ")
+		os.Stdout.Write(append(b, '\n'))
 	case "list":
 		var ids []string
 		for id := range propFuncs {
@@ -254,6 +266,12 @@ func runCheck(prop, tier, repo, verif string) (code int) {
 		}
 	}()
 	fn(c)
+	if len(aliasNotes) > 0 {
+		r.Extra["renamed_identifiers"] = aliasNotes
+		for _, n := range aliasNotes {
+			fmt.Println("note: " + n)
+		}
+	}
 	return r.Finish(verif, start, seed)
 }
 
